@@ -16,7 +16,7 @@ RULE = ("one case = one game on a real MPF machine (rig.FakeGameRig, virtual clo
 TRUSTED_BASE = [
     "Coq 8.16.1 kernel (coqc), vm_compute for refutation witnesses and for evaluating the model in the correspondence run; no native_compute",
     "axioms: none (every Print Assumptions is 'Closed under the global context')",
-    "hand-written model coq/C06/Model.v (pc machine of Game._run with the two fixes/C06-*.patch applied) tied to the working tree by "
+    "hand-written model coq/C06/Model.v (pc machine of Game._run with the fixes/C06-*.patch applied) tied to the working tree by "
     "correspondence: harness/props/c06.py runs the real game mode and the model on the same generated inputs and compares the whole "
     "chronological trace (lifecycle events with player, ball, is_extra_ball, balls_in_play, number of players; idle observations; awards; end)",
     "the MPF event manager (depth-first event queue, callbacks after the queue is empty, queue events as tasks) and asyncio are used as they "
@@ -684,7 +684,7 @@ SUITES = [
 ]
 
 LEVEL_TEXT = ("Machine-checked proof (Coq) about a program-counter model of the game coroutine (Game._run and callees, with the "
-              "two proposed fixes applied) under every sequence of environment operations at every suspension point: the lifecycle "
+              "proposed fixes applied) under every sequence of environment operations at every suspension point: the lifecycle "
               "trace is accepted by the lifecycle grammar with consistent player and ball numbers, turns rotate 1..n with ball "
               "numbers 1..balls_per_game and nobody joins after the first round, balls in play stays within [0, num_balls_known], "
               "and the coroutine's end coincides with machine.game being cleared; the unfixed code is refuted by vm_compute "
